@@ -376,6 +376,10 @@ def validate_trace_file(spec_dir, module, cfg, trace_file, timeout=900, xmx='8g'
     if r.rc == 124:
         raise HarnessFailure('trace validation timed out on %s' % trace_file)
     accepted = (r.violation == 'NotAccepted')
+    if not accepted and ('TLC threw an unexpected exception' in r.out or 'Error: Evaluating' in r.out or 'was not in the domain' in r.out
+                         or 'Attempted to' in r.out or 'is either undefined' in r.out):
+        # an evaluation error of the trace spec is a model/harness failure, never a rejection
+        raise HarnessFailure('TLC evaluation error while validating %s:\n%s' % (trace_file, r.out[-2500:]))
     if not accepted and r.violation is not None:
         # another invariant of the abstract spec was violated along the recorded execution -> rejection
         return False, r
@@ -509,7 +513,10 @@ def read_trace_file(fn):
             line = line.strip()
             if not line:
                 continue
-            ev = json.loads(line)
+            try:
+                ev = json.loads(line)
+            except ValueError:
+                raise HarnessFailure('malformed trace line in %s: %r' % (fn, line[:200]))
             if ev.get('e') == 'Reset':
                 execs.append([])
             else:
@@ -606,34 +613,47 @@ def collect_traces(tfs, keep=False):
     return execs
 
 
-def validate_and_report(res, spec_dir, module, cfg, execs, tag, describe, batch=400, sig_fn=None):
-    """dedupe executions, validate with TLC; a rejected execution becomes a violation with signature sig_fn(trace)"""
+def validate_and_report(res, spec_dir, module, cfg, execs, tag, describe, batch=400, sig_fn=None, group_fn=None):
+    """dedupe executions, validate with TLC; a rejected execution becomes a violation with signature sig_fn(trace).
+    group_fn(trace) -> key: when something is rejected, every group is validated on its own so that one failing scenario cannot
+    hide another one (one violation is reported per group and signature)."""
     d = dedupe_traces([e for e in execs if e])
     n_ok, bad, stats = validate_traces(spec_dir, module, cfg, d, tag, batch=batch)
     res.states += stats['states']; res.transitions += stats['transitions']
-    res.traces += len(execs) if bad is None else n_ok
     res.extra['distinct_property_traces'] = res.extra.get('distinct_property_traces', 0) + len(d)
     if d:
-        res.sample({'scenario': tag, 'trace': d[len(d) // 2][:40]})
+        res.sample({'scenario': tag, 'trace': [e for e in d[len(d) // 2] if not str(e.get('e', '')).startswith('#')][:40]})
+    if bad is None:
+        res.traces += len(execs)
+        return 0
+    groups = collections.OrderedDict()
+    for t in d:
+        groups.setdefault(group_fn(t) if group_fn else None, []).append(t)
     rejected = []
-    rest = d
-    # report every distinct rejection signature (continue after the first rejected trace)
-    while bad is not None:
-        tr = rest[bad]
-        sig = sig_fn(tr) if sig_fn else tag
-        rejected.append((sig, tr))
-        rest = rest[bad + 1:]
-        if len(rejected) >= 8 or not rest:
-            break
-        n_ok2, bad, stats = validate_traces(spec_dir, module, cfg, rest, tag, batch=batch)
-        res.states += stats['states']; res.transitions += stats['transitions']
+
+    def one(item):
+        key, ts = item
+        out = []; rest = ts; st = {'states': 0, 'transitions': 0}; ok = 0
+        while rest and len(out) < 3:
+            n_ok2, b, s2 = validate_traces(spec_dir, module, cfg, rest, '%s-g%d' % (tag, abs(hash(key)) % 100000), batch=batch)
+            st['states'] += s2['states']; st['transitions'] += s2['transitions']; ok += n_ok2
+            if b is None:
+                break
+            out.append(rest[b]); rest = rest[b + 1:]
+        return out, st, ok
+    with ThreadPoolExecutor(min(8, len(groups)) or 1) as ex:
+        for out, st, ok in ex.map(one, list(groups.items())):
+            res.states += st['states']; res.transitions += st['transitions']; res.traces += ok
+            rejected += out
     seen = set()
-    for sig, tr in rejected:
+    for tr in rejected:
+        sig = sig_fn(tr) if sig_fn else tag
         if sig in seen:
             continue
         seen.add(sig)
         res.violation(sig, describe(tr), {'scenario': tag, 'trace': tr, 'trace_spec': module})
     return len(rejected)
+
 
 
 def first_unexplained(spec_dir, module, cfg, trace, tag='fu'):
